@@ -1,4 +1,693 @@
-import FluentModel.ResolverSpec
+import FluentProofs.ResolverRefineTop
+import FluentProofs.ResolverRefineFrame
+/-!
+# C07 — resolved text and reported errors follow Fluent semantics
+
+`FluentModel.Resolver` is the function-for-function transcription of the Rust resolver (mutable `Scope`:
+`local_args`, `placeables`, `travelled`, `errors`, `dirty`).  `FluentModel.ResolverSpec` is the reference
+big-step semantics written from the property text (term-call arguments and the resolution stack are
+parameters of the context, the placeable limit is an outcome, counter and error log are threaded).
+
+* `resolver_refines_spec` — the simulation, for all eight functions of the spec at once (`Refines`).
+* `format_refines_spec`, `format_refines_spec_limit` — the two entry points `format_pattern` / `write_pattern`.
+* one theorem per sentence of the property (`text_verbatim` … `nothing_else_reported`).
+* `example`s at the end are tests on concrete bundles (`decide +kernel`), not theorems.
+
+Lemma files: `FluentProofs/ResolverRefine{Dirty,Val,Limit,Frame}.lean`, `FluentProofs/ResolverSpec.lean`.
+-/
 namespace FluentProofs.C07
-theorem placeholder : True := trivial
+open FluentModel FluentModel.Syntax FluentModel.Num FluentModel.Resolver FluentModel.ResolverSpec
+open FluentProofs.ResolverRefine
+
+/-- The abstraction relation of the simulation: the spec context `c` and state `(count, log)` describe the
+model scope `sc`.  `nonempty` holds everywhere below the top-level `Pattern::write` (see `AbsTop`). -/
+structure Abs (env : Env) (c : Ctx) (count : Nat) (log : List RErr) (sc : Scope) : Prop where
+  env_eq : c.env = env
+  locals_eq : c.locals = sc.localArgs
+  stack_eq : c.stack = sc.travelled
+  nonempty : sc.travelled ≠ []
+  count_eq : sc.placeables = count
+  log_eq : sc.errors = log
+  clean : sc.dirty = false
+  bound : count ≤ Generated.maxPlaceables
+
+/-- The abstraction for the element loop of pattern `whole`: the code pushes the top pattern lazily
+(`maybe_track`, when `travelled` is empty at the first placeable); the spec starts with `stack = [whole]`. -/
+structure AbsTop (env : Env) (c : Ctx) (count : Nat) (log : List RErr) (sc : Scope) (whole : Pattern Bytes) : Prop where
+  env_eq : c.env = env
+  locals_eq : c.locals = sc.localArgs
+  stack_eq : c.stack = effStack sc.travelled whole
+  count_eq : sc.placeables = count
+  log_eq : sc.errors = log
+  clean : sc.dirty = false
+  bound : count ≤ Generated.maxPlaceables
+
+/-- What the model call `r` must be, given the spec outcome `o` of the corresponding call from `c`:
+* `.val a count' log'`: `r = .ok (b, sc')` with `b` the same result (`R a b`) and `sc'` abstracted by the SAME
+  context `c` with the new counter and log — so `sc'.localArgs` and `sc'.travelled` are those before the call
+  (the scope is restored) and `dirty` is still false;
+* `.limit lg`: provided the plural rules exist, `r` is not a panic, and if it returns (`.fuel` is C06's business)
+  then `dirty = true` and `errors = lg ++ extra` where `extra` contains no `tooManyPlaceables`: `lg` is exactly
+  the model's log at the moment `dirty` was set; afterwards the code still finishes the enclosing constructs and may
+  append other reports (e.g. for the remaining call arguments), never the limit again. -/
+def SimOut {α β : Type} (env : Env) (A : Nat → List RErr → Scope → Prop) (R : α → β → Prop) (o : Out α)
+    (r : RR (β × Scope)) : Prop :=
+  match o with
+  | .val a count' log' => ∃ b sc', r = .ok (b, sc') ∧ R a b ∧ A count' log' sc'
+  | .limit lg => CategoryTotal env → DirtyOk lg r
+  | .panic _ => True
+  | .fuel => True
+
+/-- The simulation at spec fuel `f`: every model fuel `≥ 3 * f` works (the model has the extra hops
+`writePattern` and `writeDefault`). -/
+structure Refines (env : Env) (f : Nat) : Prop where
+  elems : ∀ c count log sc whole len es, AbsTop env c count log sc whole → ∀ fuel', 3 * f ≤ fuel' → ∀ w,
+    SimOut env (fun n l sc' => AbsTop env c n l sc' whole ∧ (sc.travelled ≠ [] → sc'.travelled = sc.travelled))
+      (fun out b => b = w ++ out)
+      (evalElems c f len es count log) (writeElems env fuel' whole len es w sc)
+  ref : ∀ c count log sc p src, Abs env c count log sc → ∀ fuel', 3 * f ≤ fuel' → ∀ w,
+    SimOut env (Abs env c) (fun out b => b = w ++ out)
+      (evalRef c f p src count log) (track env fuel' p src w sc)
+  expr : ∀ c count log sc e, Abs env c count log sc → ∀ fuel', 3 * f ≤ fuel' → ∀ w,
+    SimOut env (Abs env c) (fun out b => b = w ++ out)
+      (evalExpr c f e count log) (writeExpr env fuel' e w sc)
+  inline : ∀ c count log sc e, Abs env c count log sc → ∀ fuel', 3 * f ≤ fuel' → ∀ w,
+    SimOut env (Abs env c) (fun out b => b = w ++ out)
+      (evalInline c f e count log) (writeInline env fuel' e w sc)
+  value : ∀ c count log sc e, Abs env c count log sc → ∀ fuel', 3 * f ≤ fuel' →
+    SimOut env (Abs env c) Eq (evalValue c f e count log) (resolveInline env fuel' e sc)
+  args : ∀ c count log sc a, Abs env c count log sc → ∀ fuel', 3 * f ≤ fuel' →
+    SimOut env (Abs env c) Eq (evalArgs c f a count log) (getArguments env fuel' a sc)
+  list : ∀ c count log sc es, Abs env c count log sc → ∀ fuel', 3 * f ≤ fuel' →
+    SimOut env (Abs env c) Eq (evalList c f es count log) (resolveList env fuel' es sc)
+  named : ∀ c count log sc es, Abs env c count log sc → ∀ fuel', 3 * f ≤ fuel' →
+    SimOut env (Abs env c) Eq (evalNamed c f es count log) (resolveNamed env fuel' es sc)
+
+/-- **resolver_refines_spec** — the resolver model refines the reference semantics: for all eight functions
+of both mutual blocks simultaneously (induction on the spec fuel), a call of the model in a clean scope `sc`
+abstracted by `(c, count, log)` (`Abs`) does what the spec call from `(c, count, log)` says (`SimOut`): same text
+appended to the writer / same value, same counter, same error log, scope restored; and on the limit outcome the
+model goes `dirty` with exactly the spec's log. -/
+theorem resolver_refines_spec (env : Env) (f : Nat) : Refines env f := by
+  obtain ⟨vElems, vRef, vExpr, vInl, vVal, vArgs, vList, vNamed⟩ := valAll env f
+  have good : ∀ {c : Ctx} {count : Nat} {log : List RErr} {sc : Scope}, Abs env c count log sc →
+      Good sc ∧ c = ctxOf env sc ∧ count = sc.placeables ∧ log = sc.errors := by
+    intro c count log sc h
+    obtain ⟨h1, h2, h3, h4, h5, h6, h7, h8⟩ := h
+    refine ⟨⟨h7, by rw [h5]; exact h8, h4⟩, ?_, h5.symm, h6.symm⟩
+    cases c; simp_all [ctxOf]
+  have simOut_of : ∀ {α β : Type} {c : Ctx} {count : Nat} {log : List RErr} {sc : Scope},
+      Abs env c count log sc → ∀ (R : α → β → Prop) (o : Out α) (r : RR (β × Scope)),
+      (∀ a count' log', o = .val a count' log' → count' ≤ mx ∧ ∃ b, r = .ok (b, upd sc count' log') ∧ R a b) →
+      (CategoryTotal env → ∀ lg, o = .limit lg → DirtyOk lg r) → SimOut env (Abs env c) R o r := by
+    intro α β c count log sc h R o r hv hl
+    cases o with
+    | val a count' log' =>
+      obtain ⟨hb, b, hr, hR⟩ := hv a count' log' rfl
+      exact ⟨b, _, hr, hR, ⟨h.env_eq, h.locals_eq, h.stack_eq, h.nonempty, rfl, rfl, rfl, hb⟩⟩
+    | limit lg => exact fun hc => hl hc lg rfl
+    | panic m => trivial
+    | fuel => trivial
+  refine ⟨?_, ?_, ?_, ?_, ?_, ?_, ?_, ?_⟩
+  · intro c count log sc whole len es h fuel' hf w
+    obtain ⟨h1, h2, h3, h5, h6, h7, h8⟩ := h
+    have hc : c = ⟨env, sc.localArgs, effStack sc.travelled whole⟩ := by cases c; simp_all
+    subst hc h5 h6
+    cases ho : evalElems _ f len es sc.placeables sc.errors with
+    | val out count' log' =>
+      obtain ⟨hb, hM⟩ := vElems whole len es sc _ out count' log' h7 h8 rfl ho
+      obtain ⟨t', ht', hw⟩ := hM fuel' hf w
+      refine ⟨_, _, hw, rfl, ⟨rfl, rfl, ?_, rfl, rfl, rfl, hb⟩, ?_⟩
+      · show effStack sc.travelled whole = effStack t' whole
+        rcases ht' with rfl | rfl
+        · rfl
+        · exact (effStack_idem _ _).symm
+      · intro hne
+        show t' = sc.travelled
+        rcases ht' with rfl | rfl
+        · rfl
+        · exact effStack_of_ne_nil _ hne
+    | limit lg =>
+      intro hcat
+      exact (limAll env hcat f).1 whole len es sc _ lg h7 h8 rfl ho fuel' hf w
+    | panic m => trivial
+    | fuel => trivial
+  · intro c count log sc p src h fuel' hf w
+    obtain ⟨hg, rfl, rfl, rfl⟩ := good h
+    exact simOut_of h _ _ _
+      (fun a count' log' ho => by
+        obtain ⟨hb, hM⟩ := vRef p src sc a count' log' hg ho
+        exact ⟨hb, _, hM fuel' hf w, rfl⟩)
+      (fun hcat lg ho => (limAll env hcat f).2.1 p src sc lg hg ho fuel' hf w)
+  · intro c count log sc e h fuel' hf w
+    obtain ⟨hg, rfl, rfl, rfl⟩ := good h
+    exact simOut_of h _ _ _
+      (fun a count' log' ho => by
+        obtain ⟨hb, hM⟩ := vExpr e sc a count' log' hg ho
+        exact ⟨hb, _, hM fuel' hf w, rfl⟩)
+      (fun hcat lg ho => (limAll env hcat f).2.2.1 e sc lg hg ho fuel' hf w)
+  · intro c count log sc e h fuel' hf w
+    obtain ⟨hg, rfl, rfl, rfl⟩ := good h
+    exact simOut_of h _ _ _
+      (fun a count' log' ho => by
+        obtain ⟨hb, hM⟩ := vInl e sc a count' log' hg ho
+        exact ⟨hb, _, hM fuel' hf w, rfl⟩)
+      (fun hcat lg ho => (limAll env hcat f).2.2.2.1 e sc lg hg ho fuel' hf w)
+  · intro c count log sc e h fuel' hf
+    obtain ⟨hg, rfl, rfl, rfl⟩ := good h
+    exact simOut_of h _ _ _
+      (fun a count' log' ho => by
+        obtain ⟨hb, hM⟩ := vVal e sc a count' log' hg ho
+        exact ⟨hb, _, hM fuel' hf, rfl⟩)
+      (fun hcat lg ho => (limAll env hcat f).2.2.2.2.1 e sc lg hg ho fuel' hf)
+  · intro c count log sc a h fuel' hf
+    obtain ⟨hg, rfl, rfl, rfl⟩ := good h
+    exact simOut_of h _ _ _
+      (fun a' count' log' ho => by
+        obtain ⟨hb, hM⟩ := vArgs a sc a' count' log' hg ho
+        exact ⟨hb, _, hM fuel' hf, rfl⟩)
+      (fun hcat lg ho => (limAll env hcat f).2.2.2.2.2.1 a sc lg hg ho fuel' hf)
+  · intro c count log sc es h fuel' hf
+    obtain ⟨hg, rfl, rfl, rfl⟩ := good h
+    exact simOut_of h _ _ _
+      (fun a count' log' ho => by
+        obtain ⟨hb, hM⟩ := vList es sc a count' log' hg ho
+        exact ⟨hb, _, hM fuel' hf, rfl⟩)
+      (fun hcat lg ho => (limAll env hcat f).2.2.2.2.2.2.1 es sc lg hg ho fuel' hf)
+  · intro c count log sc es h fuel' hf
+    obtain ⟨hg, rfl, rfl, rfl⟩ := good h
+    exact simOut_of h _ _ _
+      (fun a count' log' ho => by
+        obtain ⟨hb, hM⟩ := vNamed es sc a count' log' hg ho
+        exact ⟨hb, _, hM fuel' hf, rfl⟩)
+      (fun hcat lg ho => (limAll env hcat f).2.2.2.2.2.2.2 es sc lg hg ho fuel' hf)
+
+
+/-! ## the entry points -/
+
+/-- what an entry point returns when the spec says `.limit lg` -/
+def LimitTop (lg : List RErr) : RR (Bytes × List RErr) → Prop
+  | .fuel => True
+  | .panic _ => False
+  | .ok (_, errs) => ∃ extra, errs = lg ++ extra ∧ RErr.tooManyPlaceables ∉ extra
+
+/-- **Top level, normal outcome.**  If the reference semantics gives pattern `p` the text `out` and the error
+list `log` (with fuel `fuel`), then both `format_pattern` and `write_pattern` of the model return exactly
+`(out, log)` for every fuel `≥ 3 * fuel + 1` (the single-text fast path of `Pattern::resolve` included). -/
+theorem format_refines_spec (env : Env) (fuel : Nat) (p : Pattern Bytes) (out : Bytes) (n : Nat) (log : List RErr)
+    (h : ResolverSpec.format env fuel p = .val out n log) (fuel' : Nat) (hf : 3 * fuel + 1 ≤ fuel') :
+    formatPattern env fuel' p = .ok (out, log) ∧ writePatternTop env fuel' p = .ok (out, log) := by
+  have hfuel : 1 ≤ fuel := by
+    cases fuel with
+    | zero => simp [ResolverSpec.format, evalElems] at h
+    | succ k => omega
+  have hw : writePatternTop env fuel' p = .ok (out, log) := by
+    obtain ⟨k, rfl⟩ : ∃ k, fuel' = k + 1 := ⟨fuel' - 1, by omega⟩
+    obtain ⟨_, hM⟩ := (valAll env fuel).1 p p.length p {} [p] out n log rfl (Nat.zero_le _) rfl h
+    obtain ⟨t', _, hw⟩ := hM k (by omega) []
+    simp [writePatternTop, writePattern, hw]
+  exact ⟨by rw [formatPattern_eq_writePatternTop env fuel' p (by omega)]; exact hw, hw⟩
+
+/-- **Top level, limit outcome.**  If the reference semantics aborts with `.limit lg` then (plural rules
+existing) neither entry point panics, and when it returns, its error list is `lg ++ extra` with no
+`tooManyPlaceables` in `extra`; `lg` itself is `pre ++ [tooManyPlaceables]` with none in `pre`. -/
+theorem format_refines_spec_limit (env : Env) (hc : CategoryTotal env) (fuel : Nat) (p : Pattern Bytes)
+    (lg : List RErr) (h : ResolverSpec.format env fuel p = .limit lg) (fuel' : Nat) (hf : 3 * fuel + 1 ≤ fuel') :
+    LimitTop lg (formatPattern env fuel' p) ∧ LimitTop lg (writePatternTop env fuel' p) ∧
+      ∃ pre, lg = pre ++ [.tooManyPlaceables] ∧ RErr.tooManyPlaceables ∉ pre := by
+  have hfuel : 1 ≤ fuel := by
+    cases fuel with
+    | zero => simp [ResolverSpec.format, evalElems] at h
+    | succ k => omega
+  have hw : LimitTop lg (writePatternTop env fuel' p) := by
+    obtain ⟨k, rfl⟩ : ∃ k, fuel' = k + 1 := ⟨fuel' - 1, by omega⟩
+    have h1 := (limAll env hc fuel).1 p p.length p {} [p] lg rfl (Nat.zero_le _) rfl h k (by omega) []
+    simp only [writePatternTop, writePattern]
+    revert h1
+    generalize writeElems env k p p.length p [] {} = r
+    intro h1
+    match r, h1 with
+    | .fuel, _ => trivial
+    | .ok (w, sc'), ⟨_, extra, he, hn⟩ => exact ⟨extra, he, hn⟩
+  refine ⟨by rw [formatPattern_eq_writePatternTop env fuel' p (by omega)]; exact hw, hw, ?_⟩
+  have hs := format_log false env fuel p (by simp) (by simp)
+  rw [h] at hs
+  obtain ⟨added, he, ha⟩ := hs
+  exact ⟨added, by simpa using he, fun hm => (ha _ hm).1 rfl⟩
+
+
+/-! ## one theorem per sentence of the property
+
+Each is a statement about the MODEL (the transcribed code).  The one-step equations say what the code does at the
+construct in question — in particular that it appends exactly ONE report (`Scope.addError e` is
+`errors := errors ++ [e]`); `resolver_refines_spec` / `format_refines_spec` lift them to whole resolutions: the
+final text and error list are those of the reference semantics, where each such occurrence contributes its one entry. -/
+
+/-- **text verbatim** (after the bundle's transform, `tr env`): a text element appends its bytes to the writer and
+nothing else happens; a single-text pattern formats to its text with no errors. -/
+theorem text_verbatim (env : Env) (n : Nat) (whole : Pattern Bytes) (len : Nat) (v : Bytes) (rest : List (PatElem Bytes))
+    (w : Bytes) (sc : Scope) (hd : sc.dirty = false) :
+    writeElems env (n + 1) whole len (.text v :: rest) w sc = writeElems env n whole len rest (w ++ tr env v) sc ∧
+    formatPattern env n [.text v] = .ok (tr env v, []) ∧ writePatternTop env (n + 3) [.text v] = .ok (tr env v, []) :=
+  ⟨writeElems_text env n whole len v rest w sc hd, formatPattern_text env n v, writePatternTop_text env n v⟩
+
+/-- **terms see only the arguments passed at their call site**: once the call arguments are resolved (in the
+caller's scope) to `named`, the term's pattern `p` is written in a scope whose `localArgs` is exactly `some named`,
+and afterwards `localArgs` is set back to what it was. -/
+theorem term_args_scoped (env : Env) (n : Nat) (id : Bytes) (attr : Option Bytes)
+    (args : Option (List (Inline Bytes) × List (Bytes × Inline Bytes))) (w : Bytes) (sc : Scope)
+    (rp : List Value) (named : ArgList) (sc1 : Scope) (p : Pattern Bytes)
+    (ha : getArguments env n args sc = .ok ((rp, named), sc1)) (ht : termTarget env id attr = some p) :
+    writeInline env (n + 1) (.term id attr args) w sc =
+      match track env n p (.term id attr args) w { sc1 with localArgs := some named } with
+      | .ok (w1, sc3) => .ok (w1, { sc3 with localArgs := sc1.localArgs })
+      | .panic m => .panic m
+      | .fuel => .fuel := by
+  rw [writeInline_term env n id attr args w sc rp named sc1 ha, ht]
+  rfl
+
+/-- … and inside a term call a variable is looked up in those arguments only (`env.args`, the caller's, are
+not consulted), in print and in value mode. -/
+theorem term_sees_only_call_args (env : Env) (n : Nat) (id w : Bytes) (sc : Scope) (l : ArgList)
+    (hl : sc.localArgs = some l) :
+    writeInline env (n + 1) (.var id) w sc =
+      .ok (w ++ (match l.get id with | some v => valueString env v | .none => braced ([36] ++ id)), sc) ∧
+    resolveInline env (n + 1) (.var id) sc = .ok ((l.get id).getD .error, sc) := by
+  constructor
+  · simp only [writeInline, hl]
+    cases hg : l.get id <;> simp [hg, inlineWriteError]
+  · simp only [resolveInline, hl]
+    cases hg : l.get id <;> simp
+
+/-- **back in force when a nested call returns** — code level, unconditional: whenever a call of the model returns
+(any expression, any scope, normal or error or limit path), `localArgs` is what it was before the call, and so is
+`travelled` unless it was empty.  In particular after `writeInline (.term …)` the caller's term arguments are in
+force again (the pinned tree failed this: F12). -/
+theorem term_args_restored_after_nested_call (env : Env) (n : Nat) (e : Inline Bytes) (w : Bytes) (sc : Scope)
+    (w' : Bytes) (sc' : Scope) (h : writeInline env n e w sc = .ok (w', sc')) :
+    sc'.localArgs = sc.localArgs ∧ (sc.travelled ≠ [] → sc'.travelled = sc.travelled) := by
+  have := (frameAll env n).2.2.2.2.2.1 e w sc sc (Fr.refl sc)
+  rw [h] at this
+  exact this
+
+/-- the same for the other entry points of the mutual block (expressions, value mode, referenced patterns,
+call arguments) -/
+theorem scope_restored (env : Env) (n : Nat) (sc : Scope) :
+    (∀ e w w' sc', writeExpr env n e w sc = .ok (w', sc') → Fr sc sc') ∧
+    (∀ e v sc', resolveInline env n e sc = .ok (v, sc') → Fr sc sc') ∧
+    (∀ p src w w' sc', track env n p src w sc = .ok (w', sc') → Fr sc sc') ∧
+    (∀ a v sc', getArguments env n a sc = .ok (v, sc') → Fr sc sc') := by
+  obtain ⟨_, _, hT, hE, _, _, hR, hA, _, _⟩ := frameAll env n
+  refine ⟨?_, ?_, ?_, ?_⟩
+  · intro e w w' sc' h; have := hE e w sc sc (Fr.refl sc); rw [h] at this; exact this
+  · intro e v sc' h; have := hR e sc sc (Fr.refl sc); rw [h] at this; exact this
+  · intro p src w w' sc' h; have := hT p src w sc sc (Fr.refl sc); rw [h] at this; exact this
+  · intro a v sc' h; have := hA a sc sc (Fr.refl sc); rw [h] at this; exact this
+
+/-- **messages see the caller's arguments**: a message reference writes the message's pattern in the SAME scope
+(only `travelled` grows, for cycle detection) — `localArgs` is not touched, so at top level (`localArgs = none`)
+variables inside are looked up in `env.args`; see `caller_variable_lookup`. -/
+theorem message_sees_callers_args (env : Env) (n : Nat) (id : Bytes) (m : Message Bytes) (p : Pattern Bytes)
+    (w : Bytes) (sc : Scope) (hm : env.msg id = some m) (hv : m.value = some p) :
+    writeInline env (n + 1) (.msg id .none) w sc = track env n p (.msg id .none) w sc ∧
+    (∀ k src, travelledContains sc.travelled p = false →
+      track env (k + 1) p src w sc =
+        match writePattern env k p w { sc with travelled := sc.travelled ++ [p] } with
+        | .ok (w1, sc1) => .ok (w1, { sc1 with travelled := sc1.travelled.dropLast })
+        | .panic m => .panic m
+        | .fuel => .fuel) := by
+  constructor
+  · simp [writeInline, hm, hv]
+  · intro k src hc
+    simp only [track, hc, Bool.false_eq_true, if_false]
+    rfl
+
+/-- the same for a message attribute -/
+theorem message_attribute_sees_callers_args (env : Env) (n : Nat) (id a : Bytes) (m : Message Bytes)
+    (p : Pattern Bytes) (w : Bytes) (sc : Scope) (hm : env.msg id = some m) (ha : findAttr m.attributes a = some p) :
+    writeInline env (n + 1) (.msg id (some a)) w sc = track env n p (.msg id (some a)) w sc := by
+  simp [writeInline, hm, ha]
+
+/-- outside a term call a variable is looked up in the caller's arguments; a miss renders `{$id}` and is reported
+exactly once (print and value mode) -/
+theorem caller_variable_lookup (env : Env) (n : Nat) (id w : Bytes) (sc : Scope) (hl : sc.localArgs = .none) :
+    writeInline env (n + 1) (.var id) w sc =
+      (match env.args.bind (·.get id) with
+       | some v => .ok (w ++ valueString env v, sc)
+       | .none => .ok (w ++ braced ([36] ++ id), sc.addError (.reference (.variable id)))) ∧
+    resolveInline env (n + 1) (.var id) sc =
+      (match env.args.bind (·.get id) with
+       | some v => .ok (v, sc)
+       | .none => .ok (.error, sc.addError (.reference (.variable id)))) := by
+  constructor
+  · simp only [writeInline, hl]
+    cases hg : env.args.bind (·.get id) <;> simp [inlineWriteError]
+  · simp only [resolveInline, hl]
+    cases hg : env.args.bind (·.get id) <;> simp
+
+/-- **functions are applied to the resolved positional and named arguments**: positional values left to right,
+then the named ones collected into a canonical argument list (C11), both in value mode and in print mode. -/
+theorem function_receives_resolved_args (env : Env) (n : Nat) (id : Bytes) (pos : List (Inline Bytes))
+    (named : List (Bytes × Inline Bytes)) (sc sc1 sc2 : Scope) (vs : List Value) (ns : List (Bytes × Value)) (fn : Fn)
+    (hl : resolveList env n pos sc = .ok (vs, sc1)) (hn : resolveNamed env n named sc1 = .ok (ns, sc2))
+    (hf : env.fn id = some fn) :
+    resolveInline env (n + 2) (.fn id pos named) sc = .ok (fn vs (ArgList.ofPairs ns), sc2) ∧
+    ∀ w, writeInline env (n + 2) (.fn id pos named) w sc =
+      .ok (w ++ (match fn vs (ArgList.ofPairs ns) with
+                 | .error => inlineWriteError (.fn id pos named)
+                 | r => valueString env r), sc2) := by
+  have hga : getArguments env (n + 1) (some (pos, named)) sc = .ok ((vs, ArgList.ofPairs ns), sc2) := by
+    simp [getArguments, hl, hn]
+  constructor
+  · simp [resolveInline, hga, hf]
+  · intro w
+    simp only [writeInline, hga, hf]
+    split <;> simp_all
+
+/-- what `key.matches(selector)` means: exact string, exact number (`FluentNumber::eq`), or — for an identifier
+key naming a plural category against a number selector — the selector's plural category -/
+theorem variant_key_matches (env : Env) (a b : Bytes) (x y : FluentNumber) :
+    valueMatches env (.str a) (.str b) = some (a == b) ∧
+    valueMatches env (.num x) (.num y) = some (x.eq y) ∧
+    valueMatches env (.str a) (.num y) =
+      (match categoryOfKeyword a with
+       | .none => some false
+       | some cat => (env.category y).map (· == cat)) ∧
+    valueMatches env (.num x) (.str b) = some false :=
+  ⟨rfl, rfl, rfl, rfl⟩
+
+/-- `selectVariant` returns the FIRST variant whose key matches: every variant before it does not match -/
+theorem selectVariant_first (env : Env) (vs : List (Variant Bytes)) (s : Value) (v : Pattern Bytes)
+    (h : selectVariant env vs s = .ok (some v)) :
+    ∃ pre k d post, vs = pre ++ .mk k v d :: post ∧ valueMatches env (keyValue env k) s = some true ∧
+      ∀ k' v' d', Variant.mk k' v' d' ∈ pre → valueMatches env (keyValue env k') s = some false := by
+  induction vs with
+  | nil => simp [selectVariant] at h
+  | cons x rest ih =>
+    obtain ⟨k, val, d⟩ := x
+    rw [selectVariant_cons] at h
+    cases hm : valueMatches env (keyValue env k) s with
+    | none => simp [hm] at h
+    | some b =>
+      cases b with
+      | true =>
+        simp [hm] at h
+        subst h
+        exact ⟨[], k, d, rest, rfl, hm, by simp⟩
+      | false =>
+        simp [hm] at h
+        obtain ⟨pre, k2, d2, post, e, h1, h2⟩ := ih h
+        refine ⟨.mk k val d :: pre, k2, d2, post, by simp [e], h1, ?_⟩
+        intro k' v' d' hmem
+        rcases List.mem_cons.1 hmem with heq | hmem
+        · cases heq; exact hm
+        · exact h2 k' v' d' hmem
+
+/-- … and returns none only when no key matches -/
+theorem selectVariant_none (env : Env) (vs : List (Variant Bytes)) (s : Value)
+    (h : selectVariant env vs s = .ok .none) :
+    ∀ k' v' d', Variant.mk k' v' d' ∈ vs → valueMatches env (keyValue env k') s = some false := by
+  induction vs with
+  | nil => simp
+  | cons x rest ih =>
+    obtain ⟨k, val, d⟩ := x
+    rw [selectVariant_cons] at h
+    cases hm : valueMatches env (keyValue env k) s with
+    | none => simp [hm] at h
+    | some b =>
+      cases b with
+      | true => simp [hm] at h
+      | false =>
+        simp [hm] at h
+        intro k' v' d' hmem
+        rcases List.mem_cons.1 hmem with heq | hmem
+        · cases heq; exact hm
+        · exact ih h k' v' d' hmem
+
+/-- **selects choose the first variant whose key equals the selector, otherwise the default**: with the selector
+resolved to `selector`, a string or number selector is matched against the keys in order (`chosen` =
+`selectVariant`, see `selectVariant_first` / `variant_key_matches`); if none matches, or the selector is not a
+string or number (e.g. an unresolvable reference), the default variant is written. -/
+theorem select_first_matching_else_default (env : Env) (n : Nat) (sel : Inline Bytes) (vs : List (Variant Bytes))
+    (w : Bytes) (sc : Scope) (selector : Value) (sc1 : Scope)
+    (hs : resolveInline env n sel sc = .ok (selector, sc1)) :
+    writeExpr env (n + 1) (.select sel vs) w sc =
+      (match chosen env vs selector with
+       | .ok (some v) => writePattern env n v w sc1
+       | .ok .none => writeDefault env n vs w sc1
+       | .panic m => .panic m
+       | .fuel => .fuel) ∧
+    (∀ k, writeDefault env (k + 1) vs w sc1 =
+      match defaultVariant vs with
+      | some v => writePattern env k v w sc1
+      | .none => .ok (w, sc1.addError .missingDefault)) ∧
+    (∀ b, chosen env vs (.str b) = selectVariant env vs (.str b)) ∧
+    (∀ x, chosen env vs (.num x) = selectVariant env vs (.num x)) ∧
+    chosen env vs .error = .ok .none ∧ chosen env vs .none = .ok .none ∧ ∀ t, chosen env vs (.custom t) = .ok .none :=
+  ⟨writeExpr_select env n sel vs w sc selector sc1 hs, fun k => by simp only [writeDefault]; rfl,
+    fun _ => rfl, fun _ => rfl, rfl, rfl, fun _ => rfl⟩
+
+
+/-- **an unresolvable message, term, attribute, function or caller-variable reference renders as its source form in
+braces and is reported exactly once** — in print mode (`writeInline`) AND in value mode (`resolveInline`, i.e. as a
+selector or call argument; the pinned tree reported an unknown function there zero times: F13).  The new scope is
+the old one with exactly one `reference` entry appended (`Scope.addError`), nothing else changes.
+(1) unknown message, (2) unknown attribute of a known message, (3) unknown term or term attribute,
+(4) unknown function, (5) variable the caller did not pass. -/
+theorem missing_reference_reported_once (env : Env) (n : Nat) (sc : Scope) :
+    -- (1) unknown message
+    (∀ id attr, env.msg id = .none →
+      (∀ w, writeInline env (n + 1) (.msg id attr) w sc =
+        .ok (w ++ braced (inlineWriteError (.msg id attr)), sc.addError (.reference (.message id attr)))) ∧
+      resolveInline env (n + 2) (.msg id attr) sc =
+        .ok (.str (braced (inlineWriteError (.msg id attr))), sc.addError (.reference (.message id attr)))) ∧
+    -- (2) unknown attribute
+    (∀ id a m, env.msg id = some m → findAttr m.attributes a = .none →
+      (∀ w, writeInline env (n + 1) (.msg id (some a)) w sc =
+        .ok (w ++ braced (id ++ [46] ++ a), sc.addError (.reference (.message id (some a))))) ∧
+      resolveInline env (n + 2) (.msg id (some a)) sc =
+        .ok (.str (braced (id ++ [46] ++ a)), sc.addError (.reference (.message id (some a))))) ∧
+    -- (3) unknown term / term attribute (after the call arguments were resolved)
+    (∀ id attr args rp named sc1, getArguments env n args sc = .ok ((rp, named), sc1) →
+      termTarget env id attr = .none →
+      (∀ w, writeInline env (n + 1) (.term id attr args) w sc =
+        .ok (w ++ braced (inlineWriteError (.term id attr args)), sc1.addError (.reference (.term id attr)))) ∧
+      resolveInline env (n + 2) (.term id attr args) sc =
+        .ok (.str (braced (inlineWriteError (.term id attr args))), sc1.addError (.reference (.term id attr)))) ∧
+    -- (4) unknown function (after the call arguments were resolved)
+    (∀ id pos named rp rn sc1, getArguments env n (some (pos, named)) sc = .ok ((rp, rn), sc1) →
+      env.fn id = .none →
+      (∀ w, writeInline env (n + 1) (.fn id pos named) w sc =
+        .ok (w ++ braced (id ++ [40, 41]), sc1.addError (.reference (.function id)))) ∧
+      resolveInline env (n + 1) (.fn id pos named) sc = .ok (.error, sc1.addError (.reference (.function id)))) ∧
+    -- (5) variable missing from the caller's arguments
+    (∀ id, sc.localArgs = .none → env.args.bind (·.get id) = .none →
+      (∀ w, writeInline env (n + 1) (.var id) w sc =
+        .ok (w ++ braced ([36] ++ id), sc.addError (.reference (.variable id)))) ∧
+      resolveInline env (n + 1) (.var id) sc = .ok (.error, sc.addError (.reference (.variable id)))) := by
+  refine ⟨?_, ?_, ?_, ?_, ?_⟩
+  · intro id attr hm
+    have h1 : ∀ k w, writeInline env (k + 1) (.msg id attr) w sc =
+        .ok (w ++ braced (inlineWriteError (.msg id attr)), sc.addError (.reference (.message id attr))) := by
+      intro k w; simp [writeInline, hm, writeRefError, refKindOf]
+    exact ⟨h1 n, by simp [resolveInline, h1 n []]⟩
+  · intro id a m hm ha
+    have h1 : ∀ k w, writeInline env (k + 1) (.msg id (some a)) w sc =
+        .ok (w ++ braced (id ++ [46] ++ a), sc.addError (.reference (.message id (some a)))) := by
+      intro k w; simp [writeInline, hm, ha, writeRefError, refKindOf, inlineWriteError]
+    exact ⟨h1 n, by simp [resolveInline, h1 n []]⟩
+  · intro id attr args rp named sc1 ha ht
+    have h1 : ∀ w, writeInline env (n + 1) (.term id attr args) w sc =
+        .ok (w ++ braced (inlineWriteError (.term id attr args)), sc1.addError (.reference (.term id attr))) := by
+      intro w
+      rw [writeInline_term env n id attr args w sc rp named sc1 ha, ht]
+      simp [writeRefError, refKindOf, Scope.addError]
+    exact ⟨h1, by simp [resolveInline, h1 []]⟩
+  · intro id pos named rp rn sc1 ha hf
+    constructor
+    · intro w; simp [writeInline, ha, hf, writeRefError, refKindOf, inlineWriteError]
+    · simp [resolveInline, ha, hf]
+  · intro id hl hg
+    constructor
+    · intro w
+      have := (caller_variable_lookup env n id w sc hl).1
+      rw [hg] at this; exact this
+    · have := (caller_variable_lookup env n id [] sc hl).2
+      rw [hg] at this; exact this
+
+/-- **a parameter that a term was not given renders the same way but is not an error**: inside a term call
+(`localArgs = some l`) a variable missing from `l` renders `{$id}` (value mode: the error value) and the scope —
+in particular the error log — is unchanged. -/
+theorem term_parameter_miss_not_an_error (env : Env) (n : Nat) (id w : Bytes) (sc : Scope) (l : ArgList)
+    (hl : sc.localArgs = some l) (hg : l.get id = .none) :
+    writeInline env (n + 1) (.var id) w sc = .ok (w ++ braced ([36] ++ id), sc) ∧
+    resolveInline env (n + 1) (.var id) sc = .ok (.error, sc) := by
+  have := term_sees_only_call_args env n id w sc l hl
+  rw [hg] at this
+  exact this
+
+/-- **a cycle is reported once where it occurs**: a reference to a pattern that is already being resolved renders
+the reference's source form in braces and appends exactly one `cyclic` entry; the pattern is not entered. -/
+theorem cycle_reported_once (env : Env) (n : Nat) (p : Pattern Bytes) (src : Inline Bytes) (w : Bytes) (sc : Scope)
+    (h : travelledContains sc.travelled p = true) :
+    track env (n + 1) p src w sc = .ok (w ++ braced (inlineWriteError src), sc.addError .cyclic) := by
+  simp [track, h]
+
+/-- **a value-less message is reported once where it occurs**: `{ msg }` for a message with attributes only
+renders `{msg}` and appends exactly one `noValue` entry (print and value mode). -/
+theorem no_value_reported_once (env : Env) (n : Nat) (id : Bytes) (m : Message Bytes) (sc : Scope)
+    (hm : env.msg id = some m) (hv : m.value = .none) :
+    (∀ w, writeInline env (n + 1) (.msg id .none) w sc = .ok (w ++ braced id, sc.addError (.noValue id))) ∧
+    resolveInline env (n + 2) (.msg id .none) sc = .ok (.str (braced id), sc.addError (.noValue id)) := by
+  have h1 : ∀ k w, writeInline env (k + 1) (.msg id .none) w sc = .ok (w ++ braced id, sc.addError (.noValue id)) := by
+    intro k w; simp [writeInline, hm, hv, inlineWriteError]
+  exact ⟨h1 n, by simp [resolveInline, h1 n []]⟩
+
+/-- **an exceeded placeable limit is reported once where it occurs.**
+Local: the placeable that takes the counter over `maxPlaceables` writes nothing, sets `dirty` and appends one
+`tooManyPlaceables`.  Global: whenever the reference semantics hits the limit, the error list either entry point
+of the model returns contains `tooManyPlaceables` EXACTLY once. -/
+theorem limit_reported_once (env : Env) :
+    (∀ k whole len e rest w sc, sc.dirty = false → sc.placeables ≤ Generated.maxPlaceables →
+      sc.placeables + 1 > Generated.maxPlaceables →
+      writeElems env (k + 1) whole len (.placeable e :: rest) w sc =
+        .ok (w, ⟨sc.localArgs, sc.placeables + 1, sc.travelled, sc.errors ++ [.tooManyPlaceables], true⟩)) ∧
+    (CategoryTotal env → ∀ fuel p lg, ResolverSpec.format env fuel p = .limit lg →
+      ∀ fuel', 3 * fuel + 1 ≤ fuel' → ∀ out errs,
+        (formatPattern env fuel' p = .ok (out, errs) ∨ writePatternTop env fuel' p = .ok (out, errs)) →
+        errs.count .tooManyPlaceables = 1) := by
+  refine ⟨fun k whole len e rest w sc hd hb hl => writeElems_limit env k whole len e rest w sc hd hb hl, ?_⟩
+  intro hc fuel p lg h fuel' hf out errs hr
+  obtain ⟨h1, h2, pre, rfl, hpre⟩ := format_refines_spec_limit env hc fuel p lg h fuel' hf
+  have key : ∃ extra, errs = (pre ++ [RErr.tooManyPlaceables]) ++ extra ∧ RErr.tooManyPlaceables ∉ extra := by
+    rcases hr with hr | hr
+    · rw [hr] at h1; exact h1
+    · rw [hr] at h2; exact h2
+  obtain ⟨extra, rfl, hex⟩ := key
+  simp [List.count_append, List.count_eq_zero.2 hpre, List.count_eq_zero.2 hex]
+
+/-- the kinds of report the property lists for a resolution that stays within the limit -/
+def Listed (e : RErr) : Prop := (∃ k, e = .reference k) ∨ (∃ id, e = .noValue id) ∨ e = .cyclic
+
+/-- **nothing else is reported.**  The model's error list is exactly the log of the reference semantics
+(`format_refines_spec`), in which every entry was appended by one of the clauses above.  In particular, if every
+select expression of the pattern and of every message and term of the bundle has a default variant (`patD`,
+`EnvD`: true of every parsed resource), every entry is a `reference`, `noValue` or `cyclic` report — `missingDefault`
+never occurs; and without that hypothesis the only further possibility is `missingDefault` (never
+`tooManyPlaceables` on a normal outcome). -/
+theorem nothing_else_reported (env : Env) (fuel : Nat) (p : Pattern Bytes) (out : Bytes) (n : Nat) (log : List RErr)
+    (h : ResolverSpec.format env fuel p = .val out n log) (fuel' : Nat) (hf : 3 * fuel + 1 ≤ fuel') :
+    formatPattern env fuel' p = .ok (out, log) ∧ writePatternTop env fuel' p = .ok (out, log) ∧
+    (∀ e ∈ log, Listed e ∨ e = .missingDefault) ∧
+    (EnvD env → patD p = true → ∀ e ∈ log, Listed e) := by
+  obtain ⟨h1, h2⟩ := format_refines_spec env fuel p out n log h fuel' hf
+  have kinds : ∀ e : RErr, e ≠ .tooManyPlaceables → Listed e ∨ e = .missingDefault := by
+    intro e he
+    cases e with
+    | reference k => exact .inl (.inl ⟨k, rfl⟩)
+    | noValue id => exact .inl (.inr (.inl ⟨id, rfl⟩))
+    | missingDefault => exact .inr rfl
+    | cyclic => exact .inl (.inr (.inr rfl))
+    | tooManyPlaceables => exact absurd rfl he
+  refine ⟨h1, h2, ?_, ?_⟩
+  · have hs := format_log false env fuel p (by simp) (by simp)
+    rw [h] at hs
+    obtain ⟨added, he, ha⟩ := hs
+    intro e hm
+    have : e ∈ added := by simpa [he] using hm
+    exact kinds e (ha e this).1
+  · intro hE hp
+    have hs := format_log true env fuel p (fun _ => hE) (fun _ => hp)
+    rw [h] at hs
+    obtain ⟨added, he, ha⟩ := hs
+    intro e hm
+    have hm' : e ∈ added := by simpa [he] using hm
+    rcases kinds e (ha e hm').1 with hk | hk
+    · exact hk
+    · exact absurd hk ((ha e hm').2 rfl)
+
+
+/-! ## tests on concrete bundles (`decide +kernel` on literals — non-vacuity checks, not theorems about all inputs) -/
+section Tests
+
+/-- test helper: the observable part of an entry-point result (`RR` has no `DecidableEq`) -/
+def obs : RR (Bytes × List RErr) → Option (Bytes × List RErr)
+  | .ok r => some r
+  | _ => .none
+
+/-- test helper: the observable part of a spec outcome; a limit outcome shows its log -/
+def obsSpec : Out Bytes → Option (Bytes × List RErr)
+  | .val out _ log => some (out, log)
+  | .limit log => some ([], log)
+  | _ => .none
+
+/-- `-i = I` -/
+def tTermI : Term Bytes := ⟨[105], [.text [73]], [], .none⟩
+/-- `-o = { -i(y: "b") } then { $x }` — a nested term call followed by a variable (the F12 shape) -/
+def tTermO : Term Bytes :=
+  ⟨[111], [.placeable (.inline (.term [105] .none (some ([], [([121], .str [98])])))),
+           .text [32, 116, 104, 101, 110, 32],
+           .placeable (.inline (.var [120]))], [], .none⟩
+/-- `m = { -o(x: "LOCAL") }` -/
+def tPatM : Pattern Bytes := [.placeable (.inline (.term [111] .none (some ([], [([120], .str [76, 79, 67, 65, 76])]))))]
+/-- `s = { MISSING() -> *[a] A }` — unknown function as selector (the F13 shape) -/
+def tPatS : Pattern Bytes := [.placeable (.select (.fn [77] [] []) [.mk (.ident [97]) [.text [65]] true])]
+/-- `v = { $x } { $z }` -/
+def tPatV : Pattern Bytes := [.placeable (.inline (.var [120])), .text [32], .placeable (.inline (.var [122]))]
+/-- 101 placeables `{ "" }` -/
+def tPatL : Pattern Bytes := List.replicate 101 (.placeable (.inline (.str [])))
+
+/-- bundle with the two terms, no functions, caller arguments `x = "CALLER"` -/
+def tEnv : Env where
+  msg := fun _ => .none
+  term := fun id => if id == [105] then some tTermI else if id == [111] then some tTermO else .none
+  fn := fun _ => .none
+  useIsolating := false
+  transform := .none
+  formatter := .none
+  category := fun _ => some .other
+  tryNumber := fun b => .str b
+  unescape := fun b => b
+  customStr := fun b => b
+  args := some [([120], .str [67, 65, 76, 76, 69, 82])]
+
+/-- test: nested term call followed by a variable — the term's own argument `x = "LOCAL"` is back in force:
+`I then LOCAL`, no errors (the pinned tree printed `I then CALLER`) -/
+example : obs (formatPattern tEnv 40 tPatM) =
+    some ([73, 32, 116, 104, 101, 110, 32, 76, 79, 67, 65, 76], []) := by decide +kernel
+
+/-- test: the writer API gives the same, and so does the reference semantics -/
+example : obs (writePatternTop tEnv 40 tPatM) = obsSpec (ResolverSpec.format tEnv 13 tPatM) := by decide +kernel
+
+/-- test: unknown function as selector — default variant `A`, exactly one `reference` report -/
+example : obs (formatPattern tEnv 40 tPatS) = some ([65], [.reference (.function [77])]) := by decide +kernel
+example : obsSpec (ResolverSpec.format tEnv 13 tPatS) = some ([65], [.reference (.function [77])]) := by decide +kernel
+
+/-- test: caller variable present / missing — `CALLER {$z}`, one report for `$z` -/
+example : obs (formatPattern tEnv 40 tPatV) =
+    some ([67, 65, 76, 76, 69, 82, 32, 123, 36, 122, 125], [.reference (.variable [122])]) := by decide +kernel
+
+/-- test: the 101st placeable trips the limit — reported once, by the model and by the spec -/
+example : (obs (formatPattern tEnv 400 tPatL)).map (·.2) = some [.tooManyPlaceables] := by decide +kernel
+example : (obsSpec (ResolverSpec.format tEnv 130 tPatL)).map (·.2) = some [.tooManyPlaceables] := by decide +kernel
+
+/-- 99 placeables `{ "" }`, then `{ F(-o, $z) }`: the call is the 100th placeable, the first placeable inside `-o`
+is the 101st -/
+def tPatX : Pattern Bytes := List.replicate 99 (.placeable (.inline (.str []))) ++
+  [.placeable (.inline (.fn [70] [.term [111] .none .none, .var [122]] []))]
+
+/-- test: what `format_refines_spec_limit` allows after the limit (`extra`): the limit trips inside the first call
+argument; the code still resolves the remaining argument `$z` and looks up `F`, so the model's log is the spec's
+`[tooManyPlaceables]` followed by two `reference` reports, and the fallback `{F()}` is printed by `write_ref_error`
+and again by `maybe_track` -/
+example : obs (formatPattern tEnv 400 tPatX) =
+    some ([123, 70, 40, 41, 125, 123, 70, 40, 41, 125],
+      [.tooManyPlaceables, .reference (.variable [122]), .reference (.function [70])]) ∧
+    obsSpec (ResolverSpec.format tEnv 130 tPatX) = some ([], [.tooManyPlaceables]) := by decide +kernel
+
+/-- test: the hypotheses of `nothing_else_reported` are satisfiable — the select of `tPatS` has a default -/
+example : patD tPatS = true ∧ patD tPatM = true := by decide +kernel
+
+end Tests
+
 end FluentProofs.C07
